@@ -55,6 +55,17 @@ theorem C08_each_return_is_sequential (sys : Sys σ Op ρ) (hx : ∀ op, sys.mod
   simp at this
   exact this.1.symm
 
+/-- the linearization order IS the lock-acquisition order: the threads of `lin` are exactly the sequence of
+    lock acquisitions, up to the one thread that holds the lock and has not committed yet -/
+theorem C08_lin_is_acquisition_order (sys : Sys σ Op ρ) (hx : ∀ op, sys.mode op = .excl) (s : State σ Op ρ)
+    (h : Reach sys s) :
+    s.acqs = s.lin.map (·.t) ∨ ∃ t, precommit (s.pc t) ∧ s.acqs = s.lin.map (·.t) ++ [t] := by
+  have i := reach_inv sys hx h
+  by_cases hp : ∃ t, precommit (s.pc t)
+  · obtain ⟨t, ht⟩ := hp
+    exact Or.inr ⟨t, ht, i.acqPre t ht⟩
+  · exact Or.inl (i.acqDone (fun t ht => hp ⟨t, ht⟩))
+
 /-- mutual exclusion: at most one thread is between acquisition and release, and it owns the lock -/
 theorem C08_mutual_exclusion (sys : Sys σ Op ρ) (hx : ∀ op, sys.mode op = .excl) (s : State σ Op ρ)
     (h : Reach sys s) (t1 t2 : Nat) (h1 : holding (s.pc t1)) (h2 : holding (s.pc t2)) : t1 = t2 := by
